@@ -32,8 +32,14 @@ fn f64_tok(f: f64) -> String {
     }
 }
 
+// two string classes whose concrete text is not ASCII-safe for a TLC configuration file travel under a name
+const NONASCII: &str = "h\u{e9}llo \u{2713} \u{1F600}";
+const ESCAPES: &str = "tab\tnl\nq\"b\\";
+
 pub fn pv_to_tok(v: &PropertyValue) -> String {
     match v {
+        PropertyValue::String(s) if s == NONASCII => "s:@nonascii".into(),
+        PropertyValue::String(s) if s == ESCAPES => "s:@escapes".into(),
         PropertyValue::String(s) => format!("s:{s}"),
         PropertyValue::Integer(i) => format!("i:{i}"),
         PropertyValue::Float(f) => format!("f:{}", f64_tok(*f)),
@@ -60,8 +66,8 @@ fn boundary_values() -> Vec<PropertyValue> {
         P::String("trail ".into()),
         P::String(" ".into()),
         P::String("".into()),
-        P::String("h\u{e9}llo \u{2713} \u{1F600}".into()),
-        P::String("tab\tnl\nq\"b\\".into()),
+        P::String(NONASCII.into()),
+        P::String(ESCAPES.into()),
         P::Integer(7),
         P::Integer(i64::MAX),
         P::Integer(i64::MIN),
